@@ -73,6 +73,11 @@ func TestC05(t *testing.T) {
 		param(c, &p)
 		cfg := baseClientConfig()
 		cfg.StartTimeout = time.Duration(p.TimeoutMs) * time.Millisecond
+		if p.TimeoutUs == 1 {
+			cfg.StartTimeout = time.Nanosecond
+		} else if p.TimeoutUs > 0 {
+			cfg.StartTimeout = time.Duration(p.TimeoutUs) * time.Microsecond
+		}
 		hostSetFor(cfg, "netrpc")
 		line, after, hook := c05Cause(p.Cause, cfg)
 		var o spec.C05Obs
@@ -106,7 +111,11 @@ func TestC05(t *testing.T) {
 			l = prepare(c.ID, "", pcfg, cfg, p.Launch, env...)
 		}
 		e.Call("h", "Start", nil)
-		ok, el, dump := within(hangAfter(cfg.StartTimeout), func() {
+		startH := hangAfter(cfg.StartTimeout)
+		if startH < 20*time.Second {
+			startH = 20 * time.Second
+		}
+		ok, el, dump := within(startH, func() {
 			_, err := l.Client.Start()
 			o.StartErr = errStr(err)
 		})
@@ -126,8 +135,18 @@ func TestC05(t *testing.T) {
 		o.Pid = l.pid()
 		o.StateAtReturn = state()
 		t0 := time.Now()
-		for !terminated(state()) && time.Since(t0) < 5*time.Second {
+		for time.Since(t0) < 5*time.Second {
+			st := state()
+			if st != "nopid" && !terminated(st) {
+				o.LiveSeen = true
+			}
+			if terminated(st) || (st == "nopid" && p.TimeoutUs > 0 && time.Since(t0) > 1500*time.Millisecond) {
+				break
+			}
 			time.Sleep(10 * time.Millisecond)
+		}
+		if o.Pid == 0 {
+			o.Pid = l.pid()
 		}
 		o.StateSoon, o.SoonMs = state(), time.Since(t0).Milliseconds()
 		kok, kel, kdump := within(18*time.Second, l.Client.Kill)
